@@ -138,6 +138,7 @@ int main(int argc, char ** argv) {
         char ev[3][2048];
         int which, m[3];
         if (strchr(units[a], ':') && units[a][0] != '*') continue;
+        if (!strcmp(units[a], "@")) continue;          /* whether the units behind an invalid character are still executed is nobody's promise (C06 accepts both) */
         if (!MC_CASE()) continue;
         m[0] = NU + a * NU + b; m[1] = a; m[2] = b;
         for (which = 0; which < 3; which++) {     /* filter: drop F@..; and R.; events */
